@@ -104,6 +104,16 @@ def gen_case(rng):
             eqs.append(f"{nm} = {nm}{{-1}} + {shocks[-1]}" + (f" + 0.5*{rng.choice(names)}" if kind == "rw" else "") + ";")
         nonstat.add(nm)
     all_names = names + ur_names
+    # a root NEAR the stability boundary (1 - 1e-5 ... 1 - 1e-3): stationary, far inside the default eigenvalue tolerance 1e-12
+    if rng.chance(0.15):
+        delta = rng.choice([1e-5, 5e-5, 2e-4, 1e-3])
+        shocks.append("enb")
+        eqs.append(f"nb = {fmt(1 - delta)}*nb{{-1}} + enb;")
+        all_names.append("nb")
+    # a variable with a TINY loading on a unit-root variable: non-stationary all the same
+    if ur_names and rng.chance(0.15):
+        eqs.append(f"tl = 0.5*tl{{-1}} + {fmt(rng.choice([1e-6, 1e-5, 1e-8]))}*{rng.choice(ur_names)} + {rng.choice(names)};")
+        all_names.append("tl"); nonstat.add("tl")
     primary = list(ur_names)       # the unit-root variables themselves: one unit root each, so that NO non-zero linear
                                    # combination of them is stationary (they cannot cointegrate among themselves)
 
@@ -191,6 +201,12 @@ def gen_case(rng):
                 terms.append(mshocks[-1])
             mnames.append(nm)
             meqs.append(f"{nm} = " + " + ".join(terms) + ";")
+    # one measurement shock entering two measurement equations (a common measurement error): H is not "diagonal"
+    if len(meqs) >= 2 and rng.chance(0.5):
+        i1, i2 = rng.sample(list(range(len(meqs))), 2)
+        mshocks.append("wcom")
+        meqs[i1] = meqs[i1][:-1] + f" + {fmt(rng.choice([1, -1, 0.5]))}*wcom;"
+        meqs[i2] = meqs[i2][:-1] + f" + {fmt(rng.choice([1, 2, -1]))}*wcom;"
     src = "!transition-variables\n    " + ", ".join(all_names) + "\n!transition-shocks\n    " + ", ".join(shocks) + "\n"
     if mnames:
         src += "!measurement-variables\n    " + ", ".join(mnames) + "\n"
@@ -200,6 +216,8 @@ def gen_case(rng):
     if meqs:
         src += "!measurement-equations\n    " + "\n    ".join(meqs) + "\n"
     stds = {f"std_{s}": rng.choice([0.0, 0.5, 1.0, 1.0, 2.0, 3.0]) for s in shocks + mshocks}
+    if stds.get("std_wcom") == 0.0:
+        stds["std_wcom"] = 1.0
     if all(v == 0 for k, v in stds.items() if k[4:] in shocks):
         stds["std_" + shocks[0]] = 1.0
     nvar = 2 if rng.chance(0.2) else 1
@@ -217,6 +235,7 @@ def gen_case(rng):
     else:
         seq = [[rng.choice(["all", "transition", "measurement", "any"]), rng.choice([0.5, 2.0, 3.0, 1.5])] for _ in range(rng.randint(1, 3))]
     return {"op": "acov", "source": src, "stds": stds, "stds2": stds2, "order": rng.randint(0, 3), "factor": rng.choice([0.5, 2.0, 3.0, 1.5]),
+            "solve_history": rng.sample([1e-4, 1e-3, 1e-7, 1e-2], rng.randint(1, 2)) if rng.chance(0.6) else [],
             "nonstationary": sorted(nonstat), "unknown": sorted(unknown), "names": all_names + mnames, "rescale_seq": seq,
             "transition_shocks": list(shocks), "measurement_shocks": list(mshocks)}
 
@@ -282,6 +301,18 @@ def run_impl(case):
     m2.rescale_stds(case["factor"])
     acov_scaled = m2.get_acov(up_to_order=k, unpack_singleton=False)
     seq = run_rescale_sequence(case, m) if case.get("rescale_seq") else None
+    # a history on ONE model object: solve with a one-off non-default eigenvalue tolerance, then the plain solve -- the result
+    # must be that of a freshly built model (the tolerance of one call must not leak into the next)
+    acov_hist = None
+    if case.get("solve_history"):
+        mh = build_model(case)
+        for t in case["solve_history"]:
+            try:
+                mh.solve(tolerance=t)
+            except Exception:
+                pass          # a coarse one-off tolerance may legitimately fail to solve; only the plain solve below is judged
+        mh.solve()
+        acov_hist = mh.get_acov(up_to_order=k, unpack_singleton=False)
     out = []
     for vid in range(nvar):
         variant = m._variants[vid]
@@ -296,6 +327,8 @@ def run_impl(case):
                     "acov_scaled": [np.array(a) for a in acov_scaled[vid]],
                     "full": [np.array(a) for a in COV.get_autocov_square(sol, cov_u, cov_w, k)],
                     "tri00": np.array(COV.get_cov_triangular_00(sol, cov_u, cov_w))})
+        if acov_hist is not None:
+            out[-1]["acov_hist"] = [np.array(a) for a in acov_hist[vid]]
         if seq is not None:
             out[-1]["seq_snaps"] = [sn[vid] for sn in seq[0]]
             out[-1]["seq_acov"] = [np.array(a) for a in seq[1][vid]]
@@ -390,8 +423,8 @@ def oracle(ctx: Ctx, case, names, r, vid):
     #     where the generator knows the answer by construction (no cancellation possible, or an exact cancellation built in:
     #     first differences, cointegrating differences) the two must agree as well
     M = np.array(T, dtype=float)
-    for _ in range(12):
-        M = M @ M                      # T^4096: stable roots (<= 0.97) are gone, unit roots stay or grow
+    for _ in range(26):
+        M = M @ M                      # T^(2^26): stable roots, also those as close to 1 as 1 - 1e-5, are gone; unit roots stay or grow
         if not np.all(np.isfinite(M)):
             break
     if np.all(np.isfinite(M)):
@@ -519,6 +552,17 @@ def oracle(ctx: Ctx, case, names, r, vid):
         if not close(r["acov_scaled"][j], s * s * acov[j], sc, 1e-9 / max(1e-3, (1 - min(rho, 0.999)) ** 2)):
             ctx.fail("rescale-stds-variants" if vid > 0 else "rescale-stds", case, tag + f"order {j}: after rescale_stds({s}) the autocovariance is not {s * s} times the original")
             break
+    # (5b) history independence of solve: after solve(tolerance=t) and a plain solve() the autocovariances are those of a fresh model
+    if "acov_hist" in r:
+        for j in range(k + 1):
+            a0, a1 = acov[j], r["acov_hist"][j]
+            fin = ~np.isnan(a0)
+            sc = max(1.0, float(np.max(np.abs(a0[fin]))) if np.any(fin) else 1.0)
+            if a0.shape != a1.shape or not np.array_equal(np.isnan(a0), np.isnan(a1)) or np.any(np.abs(a1[fin] - a0[fin]) > 1e-6 * sc):
+                ctx.fail("solve-history", case, tag + f"order {j}: after solve(tolerance={case['solve_history']}) followed by a plain solve() "
+                         f"get_acov differs from a freshly built and solved model (NaN variables {[n_ for n_, w in zip(names, np.isnan(np.diag(a1))) if w]} "
+                         f"vs {[n_ for n_, w in zip(names, np.isnan(np.diag(a0))) if w]})")
+                break
     # (6) rescale_stds with the `kind` option, in sequences: after every call the stored stds of the selected kind are
     #     multiplied by the factor and every other stored value is untouched; the autocovariances are those of a model
     #     whose stds were assigned the same values directly; when all stds end up scaled by one s they are s^2 times the original
@@ -655,6 +699,8 @@ def do_cases(ctx: Ctx, cases, with_model=True):
         ctx.count(f"order={case['order']}"); ctx.count(f"variants={len(out)}")
         ctx.count("combination-of-unit-root-variables=" + str(any(l.count("*z") >= 2 for l in case["source"].split("\n") if l.strip().startswith(("obs", "s0")))))
         ctx.count("forward-looking=" + str("{+1}" in case["source"]))
+        ctx.count("near-boundary-root=" + str("nb = " in case["source"])); ctx.count("tiny-unit-root-loading=" + str("tl = " in case["source"]))
+        ctx.count("common-measurement-shock=" + str("wcom" in case["source"])); ctx.count("solve-history=" + str(bool(case.get("solve_history"))))
         ctx.count("stationary-combination-observables=" + str(case["source"].count("cobs") // 2))
         for kind, _ in case.get("rescale_seq") or []:
             ctx.count(f"rescale-kind={kind}" + (",empty-selection" if not selected_stds(case, kind) else ""))
